@@ -116,14 +116,11 @@ theorem parseField_rejects (E : Ext) (cf : Bool) (ra : Option Str) (f : Field)
     (h : BadType E f.attrs f.ty ∨ (cf = true ∧ serdeFlatten f.attrs = true)) :
     (parseField E cf ra f).isOk = false := by
   unfold parseField
-  cases hft : fieldType E f.attrs f.ty with
-  | ok ty =>
-    rcases h with h | ⟨h1, h2⟩
-    · have := fieldType_rejects E f.attrs f.ty h
-      rw [hft] at this; simp [Outcome.isOk] at this
-    · simp [h1, h2, Outcome.isOk]
-  | err e => simp [Outcome.isOk]
-  | panic s => simp [Outcome.isOk]
+  rcases h with h | ⟨h1, h2⟩
+  · exact Outcome.bind_isOk_false' _ _ (fieldType_rejects E f.attrs f.ty h)
+  · apply Outcome.bind_isOk_false_right
+    intro ty
+    simp [h1, h2, Outcome.isOk]
 
 theorem not_ok_of_mapM' {α β} (f : α → Outcome β) (l : List α) (x : α) (hx : x ∈ l)
     (h : (f x).isOk = false) : (Outcome.mapM' f l).isOk = false := by
@@ -145,13 +142,8 @@ theorem parseStruct_rejects_field (E : Ext) (T : List Str) (attrs : List Attr) (
   simp only [hsa]
   have hmem : f ∈ fs.filter (fun f => !isSkipped f.attrs T) := by simp [hf, hskip]
   have hrej : (parseField E true (serdeRenameAll E attrs) f).isOk = false :=
-    parseField_rejects E true _ f (hbad.imp id fun h => ⟨rfl, h⟩)
-  have := not_ok_of_mapM' _ _ f hmem hrej
-  cases hm : Outcome.mapM' (parseField E true (serdeRenameAll E attrs))
-      (fs.filter fun f => !isSkipped f.attrs T) with
-  | ok r => rw [hm] at this; simp [Outcome.isOk] at this
-  | err e => simp [Outcome.isOk]
-  | panic s => simp [Outcome.isOk]
+    parseField_rejects E true _ f (hbad.imp (fun x => x) fun h => ⟨rfl, h⟩)
+  exact Outcome.bind_isOk_false' _ _ (not_ok_of_mapM' _ _ f hmem hrej)
 
 theorem parseStruct_rejects_tuple (E : Ext) (T : List Str) (attrs : List Attr) (ident : Str)
     (gens : List GenericParam) (fs : List Field) (hsa : getSerializedAsType E attrs = none)
@@ -164,11 +156,7 @@ theorem parseStruct_rejects_tuple (E : Ext) (T : List Str) (attrs : List Attr) (
   · rcases h with h | ⟨f, rest, rfl, hb⟩
     · exact absurd h hl
     · simp only [hl, if_false]
-      have := fieldType_rejects E f.attrs f.ty hb
-      cases hft : fieldType E f.attrs f.ty with
-      | ok t => rw [hft] at this; simp [Outcome.isOk] at this
-      | err e => simp [Outcome.isOk]
-      | panic s => simp [Outcome.isOk]
+      exact Outcome.bind_isOk_false' _ _ (fieldType_rejects E f.attrs f.ty hb)
 
 /-- moving the construct under `serde(skip)` / `typeshare(skip)`: a skipped field is never looked at -/
 theorem parseStruct_skipped_irrelevant (E : Ext) (T : List Str) (attrs : List Attr) (ident : Str)
@@ -184,31 +172,21 @@ theorem parseVariant_rejects (E : Ext) (T : List Str) (ra : Option Str) (v : Var
             (BadType E f.attrs f.ty ∨ serdeFlatten f.attrs = true))) :
     (parseEnumVariant E T ra v).isOk = false := by
   unfold parseEnumVariant
-  cases getIdent E (some v.ident) v.attrs ra with
-  | err e => simp [Outcome.isOk]
-  | panic s => simp [Outcome.isOk]
-  | ok id =>
-    rcases h with ⟨fs, hfs, h⟩ | ⟨fs, f, hfs, hf, hskip, hbad⟩
-    · simp only [hfs]
-      by_cases hl : fs.length > 1
-      · simp [hl, Outcome.isOk]
-      · rcases h with h | ⟨f, rest, rfl, hb⟩
-        · exact absurd h hl
-        · simp only [hl, if_false]
-          have := fieldType_rejects E f.attrs f.ty hb
-          cases hft : fieldType E f.attrs f.ty with
-          | ok t => rw [hft] at this; simp [Outcome.isOk] at this
-          | err e => simp [Outcome.isOk]
-          | panic s => simp [Outcome.isOk]
-    · simp only [hfs]
-      have hmem : f ∈ fs.filter (fun f => !isSkipped f.attrs T) := by simp [hf, hskip]
-      have hrej := parseField_rejects E true (serdeRenameAll E v.attrs) f (hbad.imp (fun x => x) fun h => ⟨rfl, h⟩)
-      have := not_ok_of_mapM' _ _ f hmem hrej
-      cases hm : Outcome.mapM' (parseField E true (serdeRenameAll E v.attrs))
-          (fs.filter fun f => !isSkipped f.attrs T) with
-      | ok r => rw [hm] at this; simp [Outcome.isOk] at this
-      | err e => simp [Outcome.isOk]
-      | panic s => simp [Outcome.isOk]
+  apply Outcome.bind_isOk_false_right
+  intro id
+  rcases h with ⟨fs, hfs, h⟩ | ⟨fs, f, hfs, hf, hskip, hbad⟩
+  · simp only [hfs]
+    by_cases hl : fs.length > 1
+    · simp [hl, Outcome.isOk]
+    · rcases h with h | ⟨f, rest, rfl, hb⟩
+      · exact absurd h hl
+      · simp only [hl, if_false]
+        exact Outcome.bind_isOk_false' _ _ (fieldType_rejects E f.attrs f.ty hb)
+  · simp only [hfs]
+    have hmem : f ∈ fs.filter (fun f => !isSkipped f.attrs T) := by simp [hf, hskip]
+    have hrej := parseField_rejects E true (serdeRenameAll E v.attrs) f
+      (hbad.imp (fun x => x) fun h => ⟨rfl, h⟩)
+    exact Outcome.bind_isOk_false' _ _ (not_ok_of_mapM' _ _ f hmem hrej)
 
 /-- **enums**: an unsupported payload, an unsupported or flattened struct-variant field, or several
 payloads in a non-skipped variant make `parse_enum` fail -/
@@ -222,15 +200,42 @@ theorem parseEnum_rejects_variant (E : Ext) (T : List Str) (attrs : List Attr) (
   unfold parseEnum
   simp only [hsa]
   have hmem : v ∈ vs.filter (fun v => !isSkipped v.attrs T) := by simp [hv, hskip]
-  have := not_ok_of_mapM' _ _ v hmem (parseVariant_rejects E T (serdeRenameAll E attrs) v h)
-  cases hm : Outcome.mapM' (parseEnumVariant E T (serdeRenameAll E attrs))
-      (vs.filter fun v => !isSkipped v.attrs T) with
-  | ok r => rw [hm] at this; simp [Outcome.isOk] at this
-  | err e => simp [Outcome.isOk]
-  | panic s => simp [Outcome.isOk]
+  exact Outcome.bind_isOk_false' _ _
+    (not_ok_of_mapM' _ _ v hmem (parseVariant_rejects E T (serdeRenameAll E attrs) v h))
 
-/-- **enum shape**: whenever `parse_enum` succeeds on a real enum, a unit enum carries neither
-`tag` nor `content`, and a data-carrying enum carries both -/
+/-- **enum shape**: whenever the shape check succeeds, a unit enum carries neither `tag` nor
+`content`, and a data-carrying enum carries both -/
+theorem enumShape_keys (E : Ext) (attrs : List Attr) (sh e : RustEnum)
+    (h : enumShape E attrs sh = .ok (.enum e)) :
+    e.variants = sh.variants ∧
+    (sh.variants.all variantIsUnit = true → getTagKey E attrs = none ∧ getContentKey E attrs = none ∧ e.keys = sh.keys) ∧
+    (sh.variants.all variantIsUnit = false →
+      ∃ t c, getTagKey E attrs = some t ∧ getContentKey E attrs = some c ∧ e.keys = some (t, c)) := by
+  unfold enumShape at h
+  by_cases hall : sh.variants.all variantIsUnit = true
+  · simp only [hall, if_true] at h
+    cases ht : getTagKey E attrs with
+    | some t => simp [ht] at h
+    | none =>
+      cases hc : getContentKey E attrs with
+      | some c => simp [ht, hc] at h
+      | none =>
+        simp [ht, hc] at h
+        subst h
+        exact ⟨rfl, fun _ => ⟨rfl, rfl, rfl⟩, fun hf => by simp [hall] at hf⟩
+  · simp only [hall, if_false] at h
+    cases ht : getTagKey E attrs with
+    | none => simp [ht] at h
+    | some t =>
+      cases hc : getContentKey E attrs with
+      | none => simp [ht, hc] at h
+      | some c =>
+        simp [ht, hc] at h
+        subst h
+        exact ⟨rfl, fun hf => absurd hf hall, fun _ => ⟨t, c, rfl, rfl, rfl⟩⟩
+
+/-- lifted to `parse_enum`: a data-carrying enum is generated only with both keys, a unit enum
+only with neither -/
 theorem parseEnum_keys (E : Ext) (T : List Str) (attrs : List Attr) (ident : Str)
     (gens : List GenericParam) (vs : List Variant) (hsa : getSerializedAsType E attrs = none)
     (e : RustEnum) (h : parseEnum E T attrs ident gens vs = .ok (.enum e)) :
@@ -239,35 +244,12 @@ theorem parseEnum_keys (E : Ext) (T : List Str) (attrs : List Attr) (ident : Str
       ∃ t c, getTagKey E attrs = some t ∧ getContentKey E attrs = some c ∧ e.keys = some (t, c)) := by
   unfold parseEnum at h
   simp only [hsa] at h
-  split at h
-  · rename_i rvs hm
-    split at h
-    · rename_i id hid
-      split at h
-      · rename_i hall
-        split at h
-        · simp at h
-        · split at h
-          · simp at h
-          · simp only [Outcome.ok.injEq, RustItem.enum.injEq] at h
-            subst h
-            refine ⟨fun _ => ⟨by simp_all, by simp_all, rfl⟩, fun hf => ?_⟩
-            simp [hall] at hf
-      · rename_i hall
-        split at h
-        · simp at h
-        · rename_i tag htag
-          split at h
-          · simp at h
-          · rename_i content hcontent
-            simp only [Outcome.ok.injEq, RustItem.enum.injEq] at h
-            subst h
-            refine ⟨fun ht => ?_, fun _ => ⟨tag, content, htag, hcontent, rfl⟩⟩
-            simp [hall] at ht
-    · simp at h
-    · simp at h
-  · simp at h
-  · simp at h
+  obtain ⟨rvs, _, h⟩ := (Outcome.bind_eq_ok _ _ _).1 h
+  obtain ⟨id, _, h⟩ := (Outcome.bind_eq_ok _ _ _).1 h
+  obtain ⟨hv, h1, h2⟩ := enumShape_keys E attrs _ e h
+  simp only at hv h1 h2
+  rw [hv]
+  exact ⟨h1, h2⟩
 
 /-- **consts**: only an initialiser that is exactly an integer literal is accepted — negations,
 arithmetic, calls and paths are rejected, not reduced to a literal found inside them -/
@@ -285,45 +267,32 @@ theorem parseConst_needs_int (E : Ext) (attrs : List Attr) (ident : Str) (ty : S
 /-- and the value generated is the value written -/
 theorem parseConst_value (E : Ext) (attrs : List Attr) (ident : Str) (ty : SynType) (v : Nat) (suf : Str)
     (c : RustConst) (h : parseConst E attrs ident ty (some (.int v suf)) = .ok (.const c)) : c.expr = v := by
-  unfold parseConst parseConstExpr at h
-  by_cases hv : v ≤ i128Max
-  · simp only [hv, if_true] at h
-    cases hft : fieldType E attrs ty with
-    | ok t =>
-      rw [hft] at h
-      by_cases hc : constTypeOk t = true
-      · simp only [hc, if_true] at h
-        cases hid : getIdent E (some ident) attrs none with
-        | ok i => rw [hid] at h; simp only [Outcome.ok.injEq, RustItem.const.injEq] at h; subst h; rfl
-        | err e => rw [hid] at h; simp at h
-        | panic p => rw [hid] at h; simp at h
-      · simp [hc] at h
-    | err e => rw [hft] at h; simp at h
-    | panic p => rw [hft] at h; simp at h
-  · simp [hv] at h
+  unfold parseConst at h
+  obtain ⟨expr, he, h⟩ := (Outcome.bind_eq_ok _ _ _).1 h
+  obtain ⟨t, _, h⟩ := (Outcome.bind_eq_ok _ _ _).1 h
+  have hv : expr = v := by
+    simp only [parseConstExpr] at he
+    split at he
+    · simpa using he.symm
+    · simp at he
+  split at h
+  · obtain ⟨id, _, h⟩ := (Outcome.bind_eq_ok _ _ _).1 h
+    simp at h
+    subst h; exact hv
+  · simp at h
 
 /-- **aliases and consts** with an unsupported (effective) type are rejected -/
 theorem parseTypeAlias_rejects (E : Ext) (attrs : List Attr) (ident : Str) (gens : List GenericParam)
     (ty : SynType) (h : BadType E attrs ty) : (parseTypeAlias E attrs ident gens ty).isOk = false := by
   unfold parseTypeAlias
-  have := fieldType_rejects E attrs ty h
-  cases hft : fieldType E attrs ty with
-  | ok t => rw [hft] at this; simp [Outcome.isOk] at this
-  | err e => simp [Outcome.isOk]
-  | panic s => simp [Outcome.isOk]
+  exact Outcome.bind_isOk_false' _ _ (fieldType_rejects E attrs ty h)
 
 theorem parseConst_rejects (E : Ext) (attrs : List Attr) (ident : Str) (ty : SynType) (init : Option Lit)
     (h : BadType E attrs ty) : (parseConst E attrs ident ty init).isOk = false := by
   unfold parseConst
-  cases parseConstExpr init with
-  | err e => simp [Outcome.isOk]
-  | panic s => simp [Outcome.isOk]
-  | ok v =>
-    have := fieldType_rejects E attrs ty h
-    cases hft : fieldType E attrs ty with
-    | ok t => rw [hft] at this; simp [Outcome.isOk] at this
-    | err e => simp [Outcome.isOk]
-    | panic s => simp [Outcome.isOk]
+  apply Outcome.bind_isOk_false_right
+  intro v
+  exact Outcome.bind_isOk_false' _ _ (fieldType_rejects E attrs ty h)
 
 /-- **an item that is not `ok` is never silently dropped**: the visitor records exactly one error
 for it (or the whole parse panics, see C07) and never adds it to the item lists -/
